@@ -219,6 +219,12 @@ def trace_of(lines):
     return None
 
 
+def _limit_mem():
+    # a runaway expansion in the code under test must not take the sandbox down: 6 GiB address space per harness process
+    import resource
+    resource.setrlimit(resource.RLIMIT_AS, (6 << 30, 6 << 30))
+
+
 def run_impl_shard(sub, casefile, ncases, ids, outpath, timeout):
     """Runs the harness over a case file, restarting after an abort (stack overflow kills the process)."""
     start = 0
@@ -227,7 +233,7 @@ def run_impl_shard(sub, casefile, ncases, ids, outpath, timeout):
     while start < ncases:
         try:
             p = subprocess.run([HARNESS_BIN, sub, casefile, str(start)], stdout=subprocess.PIPE, stderr=subprocess.DEVNULL,
-                               timeout=timeout, env=ENV)
+                               timeout=timeout, env=ENV, preexec_fn=_limit_mem)
             text = p.stdout.decode('utf-8', 'replace')
             rc = p.returncode
         except subprocess.TimeoutExpired as e:
@@ -408,6 +414,9 @@ def case_text(case, it=None, mt=None, note=''):
         s += ls
     s.append('H ' + ' '.join(case['hist']))
     s.append('END')
+    if case.get('text') is not None:
+        s.append('# --- configuration text (python repr)')
+        s.append('# ' + repr(case['text']))
     if it is not None:
         s.append('# --- implementation trace')
         s += ['# ' + l for l in it]
@@ -484,7 +493,7 @@ def run_check(spec, tier, seed):
             groups.setdefault(c.get('sub', spec.get('sub', 'lsim')), []).append(c)
         for sub, cs in groups.items():
             if driver_ok:
-                res = run_both(sub, cs, pid + '-' + sub)
+                res = run_both(sub, cs, pid + '-' + sub, timeout=(spec.get('timeouts') or {}).get(sub, 900))
             else:
                 res = run_both(sub, cs, pid + '-' + sub)  # model output will be missing; impl traces still usable
             for c in cs:
@@ -504,7 +513,7 @@ def run_check(spec, tier, seed):
                 if mt and mt[0].startswith('UNSUPPORTED'):
                     stats['unsupported'] += 1
                 elif driver_ok and not c.get('no_compare'):
-                    if same_trace(it, mt):
+                    if spec.get('compare', same_trace)(it, mt):
                         stats['agree'] += 1
                     else:
                         stats['mismatch'] += 1
@@ -559,6 +568,11 @@ def run_check(spec, tier, seed):
         violations += 1
         if violations <= 3:
             c2 = c
+            if violations == 1 and spec.get('shrink_oracle'):
+                try:
+                    c2, it = spec['shrink_oracle'](c, it, why)
+                except Exception:
+                    c2 = c
             p = write_replay(pid, '%s.case' % hashlib.sha1((c['cfg'] + ' '.join(c['hist'])).encode()).hexdigest()[:12],
                              case_text(c2, it, mt, 'property oracle: ' + why))
             lines.append('VIOLATION property=%s replay=%s' % (pid, p))
@@ -567,7 +581,7 @@ def run_check(spec, tier, seed):
         c, it, mt = mismatches[0]
         try:
             sub = c.get('sub', spec.get('sub', 'lsim'))
-            c = shrink_case(sub, c, lambda cc, i2, m2: i2 is not None and not (i2 and i2[0].startswith('PARSE-')) and not same_trace(i2, m2))
+            c = shrink_case(sub, c, lambda cc, i2, m2: i2 is not None and not (i2 and i2[0].startswith('PARSE-')) and not spec.get('compare', same_trace)(i2, m2))
             r = run_both(sub, [dict(c, id='final')], 'shrink', shards=1, timeout=120)
             it, mt = r['final']
         except Exception:
